@@ -14,3 +14,4 @@ package preflight
 //@   loop 1 invariant 0 <= idx && idx <= len(phase.Objects)
 //@   loop 1 invariant len(violations) == 0 ==> (forall i int :: 0 <= i && i < idx ==> pfPassed(checker, owner, objstate(&objs[i])))
 //@   loop 1 invariant failedSoFar() == old(failedSoFar()) && W() == old(W())
+//@   loop 1 invariant gomem_unchanged() && (cap(violations) == 0 || (fresh(sarr(violations)) && allocated(sarr(violations))))
